@@ -389,7 +389,7 @@ def endEvac (s : State V) (c pg : Nat) : Except Err (State V) :=
   match s.pages.get? pg with
   | none => .error .corrupt
   | some h =>
-    if h.scan ≠ h.brk || !h.evac then .error .corrupt else
+    if h.scan ≠ h.brk || !h.evac || h.cls ≠ c then .error .corrupt else
     let k := s.K c
     .ok { s with pages := s.pages.del pg,
                  cls := s.cls.set c { k with plist := k.plist.erase pg, pageCount := k.pageCount - 1,
